@@ -272,10 +272,13 @@ Definition out_app {A} (a b : out (list A)) : out (list A) :=
   end.
 
 (* generate_class_member_subtypes_for_entity: the node itself if its file declares the member,
-   else the union over its children.  The node's mutex is taken for the first statement and again,
-   for the whole loop over the children, while recursing: `held` = the nodes locked up-stack;
-   taking a held lock again is a self-deadlock. *)
-Fixpoint mem_down (fuel : nat) (t : tree) (d : decls) (name : str) (held : list nat) (p : nat)
+   else the union over its children.
+   hold = false: the code as it is (0e8d93b): the children list is cloned and NO node stays locked during
+   the recursion; on a children cycle the recursion would have no end (OutOfFuel).
+   hold = true: the code before 0e8d93b: the node's mutex was taken for the first statement and again, for the
+   whole loop over the children, while recursing: `held` = the nodes locked up-stack; taking a held lock
+   again was a self-deadlock. *)
+Fixpoint mem_down (hold : bool) (fuel : nat) (t : tree) (d : decls) (name : str) (held : list nat) (p : nat)
   : out (list nat) :=
   match fuel with
   | O => OutOfFuel
@@ -285,21 +288,23 @@ Fixpoint mem_down (fuel : nat) (t : tree) (d : decls) (name : str) (held : list 
            | None => Ok []
            | Some ms =>
                if memb name ms then Ok [p]
-               else fold_right (fun c acc => out_app (mem_down f t d name (p :: held) c) acc)
+               else fold_right (fun c acc => out_app (mem_down hold f t d name (if hold then p :: held else held) c) acc)
                                (Ok []) (kids_of t p)
            end
   end.
 
 (* generate_class_member_subtypes: the children are cloned first, the start node is not held.
-   Fuel: at most `number of nodes` nodes can be held at once, so one level more than that either
-   finishes or meets a held node: OutOfFuel is unreachable on ANY heap (proved for trees whose
-   children lists mirror the parent links; on a children cycle the outcome is Deadlock). *)
-Definition member_subtypes (t : tree) (d : decls) (c name : str) : out (list nat) :=
+   Fuel: one level more than the number of nodes: on a tree whose children lists mirror acyclic parent links the
+   walk returns (proved); on a children cycle the old code re-locked a held node (Deadlock), the current code
+   would recurse without end (OutOfFuel). *)
+Definition member_subtypes_g (hold : bool) (t : tree) (d : decls) (c name : str) : out (list nat) :=
   match lookup t (upper c) with
   | None => Ok []
-  | Some e => fold_right (fun c acc => out_app (mem_down (S (length (heap t))) t d (upper name) [] c) acc)
+  | Some e => fold_right (fun c acc => out_app (mem_down hold (S (length (heap t))) t d (upper name) [] c) acc)
                          (Ok []) (kids_of t e)
   end.
+Definition member_subtypes := member_subtypes_g false.
+Definition member_subtypes_old := member_subtypes_g true.
 
 (* the item name before 3e4a84d: the node's id, i.e. the first spelling seen *)
 Definition old_item_name (t : tree) (k : str) : option str :=
